@@ -303,6 +303,17 @@ func buildRedirects(prog *ssa.Program, hpkg *ssa.Package) map[*ssa.Function]*ssa
 func (e *Exec) callSSA(fn *ssa.Function, args []Value, env []Value) Value {
 	e.funcs[fn.String()] = true
 	if len(e.callStack) > 400 {
+		// 400 frames deep with one function on the stack 100 times or more: unbounded recursion, which the
+		// Go run time ends with "fatal error: stack overflow" (not recoverable: the process dies)
+		n := 0
+		for _, f := range e.callStack {
+			if f == fn {
+				n++
+			}
+		}
+		if n >= 100 {
+			panic(targetPanic{v: "stack overflow", kind: "stack overflow (unbounded recursion)", fn: fn.String()})
+		}
 		panic(unsupported("call depth > 400"))
 	}
 	e.callStack = append(e.callStack, fn)
